@@ -29,6 +29,18 @@ def tyName : NType → String
 def optS (o : Option (List Nat)) : String :=
   match o with | some s => str s | none => "!err"
 
+def strE (s : List Nat) : String := if s.isEmpty then "hex:" else str s
+
+/-- the OmitPrefix fields: op=<text with the option> ort=<re-import of ShowPrefix ++ that text> -/
+def omitFields (t : NType) (es : Option (List Nat)) : String :=
+  match es with
+  | none => "op=!err ort=-"
+  | some e =>
+    let o := omitPrefix t e
+    match importString (showPrefix t ++ o) with
+    | none => s!"op={strE o} ort=err"
+    | some m => s!"op={strE o} ort=ok orty={tyName m.ty} orbits={m.bits} orbytes={hexBytes m.bytes}"
+
 def caseLine (hex : String) (ns : List Nat) (s : List Nat) (spec : Bool) : String :=
   match importString s with
   | none => s!"C {hex} imp=err"
@@ -40,7 +52,7 @@ def caseLine (hex : String) (ns : List Nat) (s : List Nat) (spec : Bool) : Strin
       | some e => match importString e with
         | none => "rt=err"
         | some m => s!"rt=ok rty={tyName m.ty} rbits={m.bits} rbytes={hexBytes m.bytes}"
-    s!"C {hex} imp=ok ty={tyName v.ty} bits={v.bits} bytes={hexBytes v.bytes} es={optS es} eb={str (exportBinary false v)} ebs={str (exportBinary true v)} vb={str (exportVerilogBinary v)} nb={nb} {rt}"
+    s!"C {hex} imp=ok ty={tyName v.ty} bits={v.bits} bytes={hexBytes v.bytes} es={optS es} eb={str (exportBinary false v)} ebs={str (exportBinary true v)} vb={str (exportVerilogBinary v)} nb={nb} {rt} {omitFields v.ty es}"
 
 def hexVal (c : Char) : Nat := digitVal c.toNat
 
@@ -59,7 +71,7 @@ def valueLine (v : BMNumber) : String :=
     | some e => match importString e with
       | none => "rt=err"
       | some m => s!"rt=ok rty={tyName m.ty} rbits={m.bits} rbytes={hexBytes m.bytes}"
-  s!"ty={tyName v.ty} bits={v.bits} bytes={hexBytes v.bytes} u64={u} es={optS es} eb={str (exportBinary false v)} ebs={str (exportBinary true v)} vb={str (exportVerilogBinary v)} {rt}"
+  s!"ty={tyName v.ty} bits={v.bits} bytes={hexBytes v.bytes} u64={u} es={optS es} eb={str (exportBinary false v)} ebs={str (exportBinary true v)} vb={str (exportVerilogBinary v)} {rt} {omitFields v.ty es}"
 
 def step (_ : Unit) (line : String) : Unit × List String :=
   let fs := fields line
